@@ -1,7 +1,7 @@
 (* C16_Props.v — the property theorems of C16 and nothing else.
    Histories are ARBITRARY lists of actions; every action is one critical section of
    tracer.go / builder.go, so every interleaving of the goroutines is one such list. *)
-From V Require Import C16_Spec C16_Proofs.
+From V Require Import C16_Spec C16_Proofs C16_Conc C16_ConcProofs.
 Open Scope N_scope.
 
 (* The slot map always shows what the history says: the latest Init/Clear of the name
@@ -83,6 +83,62 @@ Theorem indices : forall nm l t, In t (brun nm l).(b_calls) ->
 Proof. exact indices_proof. Qed.
 Print Assumptions indices.
 
+(* "records no event after completion": in whatever the collector receives, nothing
+   follows a finishing event — for every order of events *)
+Theorem no_event_after_finish : forall nm l t,
+  In t (brun nm l).(b_calls) -> nothing_after_finish t.(t_events).
+Proof. exact no_event_after_finish_proof. Qed.
+Print Assumptions no_event_after_finish.
+
+(* ---- concurrency made explicit ---- *)
+(* the enumeration used by the free-running oracles is exactly the set of interleavings:
+   every script's actions in program order, nothing else *)
+Theorem interleavings_iff : forall (ss : list (list bact)) l,
+  In l (interleavings ss) <-> Interleave ss l.
+Proof. exact (@interleavings_iff_proof bact). Qed.
+Print Assumptions interleavings_iff.
+
+(* the builder oracle accepts an observed list of collector calls iff SOME interleaving of
+   the goroutines' scripts (after `pre`, before `tail`) delivers exactly that list ... *)
+Theorem builder_allowed_iff : forall nm pre ss tail obs,
+  ballowed nm pre ss tail obs = true <->
+  exists l, Interleave ss l /\ (brun nm (pre ++ l ++ tail)).(b_calls) = obs.
+Proof. exact builder_allowed_iff_proof. Qed.
+Print Assumptions builder_allowed_iff.
+
+(* ... hence an accepted observation has every proved property: at most one call, only for a
+   named operation, with the operation's name, nothing after its finishing event, data
+   events numbered 0,1,2,... per direction *)
+Theorem accepted_calls_sound : forall nm pre ss tail obs,
+  ballowed nm pre ss tail obs = true ->
+  (length obs <= 1)%nat /\
+  (forall t, In t obs ->
+     nm <> [] /\ t.(t_name) = nm /\ nothing_after_finish t.(t_events) /\
+     req_indices t.(t_events) = upto (length (req_indices t.(t_events))) /\
+     resp_indices t.(t_events) = upto (length (resp_indices t.(t_events)))).
+Proof. exact accepted_calls_sound_proof. Qed.
+Print Assumptions accepted_calls_sound.
+
+(* the Tracer oracle accepts what the waiters got and what the names show iff SOME
+   interleaving of Init/Complete/AwaitBegin/Clear (then `tail`: the contexts ending) shows it *)
+Theorem tracer_allowed_iff : forall pre ss tail ws ns obs,
+  tallowed pre ss tail ws ns obs = true <->
+  exists l, Interleave ss l /\ observe (run (pre ++ l ++ tail)) ws ns = obs.
+Proof. exact tracer_allowed_iff_proof. Qed.
+Print Assumptions tracer_allowed_iff.
+
+(* add = critical section + collector call after the unlock.  Because the code takes and
+   clears the trace INSIDE the critical section, every schedule of critical sections and
+   deferred calls (other goroutines may run between a critical section and its deferred
+   call) hands the collector what the one-action-per-add model hands it: calls made so far
+   plus calls still to be made = the one-step calls.  So all theorems above hold at this
+   finer grain too. *)
+Theorem two_step_add : forall nm sched,
+  (frun true nm sched).(f_calls) ++ ready_traces (frun true nm sched).(f_pend)
+  = (brun nm (atomic_of sched)).(b_calls).
+Proof. exact two_step_add_proof. Qed.
+Print Assumptions two_step_add.
+
 (* ---- non-vacuity ---- *)
 Definition a := bs "a".
 Definition b := bs "b".
@@ -119,3 +175,52 @@ Example ex_unnamed : (brun [] [Add ERespStart; Add (ERespEnd 0); Build]).(b_call
 Proof. vm_compute. reflexivity. Qed.
 Example ex_unfinished : (brun a [Add ERespStart; Add (EReqEnd 0)]).(b_calls) = [].
 Proof. vm_compute. reflexivity. Qed.
+
+(* ---- why the clearing must happen inside the lock ---- *)
+(* body end and cancel from two goroutines; each add's deferred step runs after the other
+   goroutine's critical section *)
+Definition race_sched : list fact :=
+  [FAdd (ERespEnd 0); FAdd ECanceled; FDefer 0; FDefer 0; FDefer 1; FDefer 1].
+(* the code: the second event finds the trace cleared *)
+Example ex_inlock :
+  map t_events (frun true a race_sched).(f_calls) = [[TReqStart; TRespEnd 0]]
+  /\ (frun true a race_sched).(f_pend) = [].
+Proof. vm_compute. split; reflexivity. Qed.
+(* finishing by a build() after the unlock instead: the cancel event is recorded AFTER the
+   finishing event, and delivered *)
+Example ex_outside_lock :
+  map t_events (frun false a race_sched).(f_calls) = [[TReqStart; TRespEnd 0; TCanceled]]
+  /\ (frun false a race_sched).(f_pend) = [].
+Proof. vm_compute. split; reflexivity. Qed.
+(* ... which no order of atomic adds and builds whatsoever can deliver: the two-step
+   equivalence fails for that variant *)
+Example ex_outside_lock_refuted :
+  ~ exists nm l, (brun nm l).(b_calls) = (frun false a race_sched).(f_calls).
+Proof.
+  intros (nm & l & E).
+  assert (IN : In (mkTr a [TReqStart; TRespEnd 0; TCanceled] 4 false) (brun nm l).(b_calls)).
+  { rewrite E. vm_compute. left. reflexivity. }
+  apply no_event_after_finish in IN.
+  specialize (IN [TReqStart] (TRespEnd 0) [TCanceled] eq_refl eq_refl). discriminate.
+Qed.
+(* the oracle on observations: either order of the racing events is accepted, the
+   overlapped outcome is not *)
+Example ex_oracle_accepts :
+  ballowed a [Add ERespStart] [[Add (ERespEnd 0)]; [Add ECanceled]] [Build]
+           [mkTr a [TReqStart; TRespStart; TRespEnd 0] 0 true] = true
+  /\ ballowed a [Add ERespStart] [[Add (ERespEnd 0)]; [Add ECanceled]] [Build]
+           [mkTr a [TReqStart; TRespStart; TCanceled] 4 true] = true.
+Proof. vm_compute. split; reflexivity. Qed.
+Example ex_oracle_rejects :
+  ballowed a [Add ERespStart] [[Add (ERespEnd 0)]; [Add ECanceled]] [Build]
+           [mkTr a [TReqStart; TRespStart; TRespEnd 0; TCanceled] 0 true] = false.
+Proof. vm_compute. reflexivity. Qed.
+(* Tracer: Await racing two Completes — the waiter may get either (whichever is first), never
+   a context error while a completion is certain *)
+Example ex_tracer_oracle :
+  let ss := [[AwaitBegin 0 a]; [Complete a 1]; [Complete a 2]] in
+  tallowed [Init a] ss [CtxDone 0] [0] [a] ([(2, 1)], [(2, 1)])%Z = true /\
+  tallowed [Init a] ss [CtxDone 0] [0] [a] ([(2, 2)], [(2, 2)])%Z = true /\
+  tallowed [Init a] ss [CtxDone 0] [0] [a] ([(2, 1)], [(2, 2)])%Z = false /\
+  tallowed [Init a] ss [CtxDone 0] [0] [a] ([(4, 0)], [(2, 1)])%Z = false.
+Proof. vm_compute. repeat split; reflexivity. Qed.
